@@ -78,7 +78,7 @@ def tcp : Iface :=
 def usbtmc : Iface :=
   { name := ['u', 's', 'b', 't', 'm', 'c'],
     positionals := [],
-    keywords := [⟨['v', 'e', 'n', 'd', 'o', 'r', 'i', 'd'], .int, false⟩, ⟨['p', 'r', 'o', 'd', 'u', 'c', 't', 'i', 'd'], .int, false⟩, ⟨['s', 'e', 'r', 'i', 'a', 'l', 'n', 'r'], .str, true⟩],
+    keywords := [⟨['v', 'e', 'n', 'd', 'o', 'r', 'i', 'd'], .int, true⟩, ⟨['p', 'r', 'o', 'd', 'u', 'c', 't', 'i', 'd'], .int, true⟩, ⟨['s', 'e', 'r', 'i', 'a', 'l', 'n', 'r'], .str, true⟩],
     ctorLinux := some { cls := ['Q', 'M', 'I', '_', 'P', 'y', 'U', 's', 'b', 'T', 'm', 'c', 'T', 'r', 'a', 'n', 's', 'p', 'o', 'r', 't'], args := [(['v', 'e', 'n', 'd', 'o', 'r', 'i', 'd'], none), (['p', 'r', 'o', 'd', 'u', 'c', 't', 'i', 'd'], none), (['s', 'e', 'r', 'i', 'a', 'l', 'n', 'r'], none)], prog := [
         .validate ['v', 'e', 'n', 'd', 'o', 'r', 'i', 'd'] (.or (.lt (0)) (.gt (65535))),
         .validate ['p', 'r', 'o', 'd', 'u', 'c', 't', 'i', 'd'] (.or (.lt (0)) (.gt (65535))),
